@@ -744,12 +744,14 @@ def run_gates(ctx, res, exe, drv, gs, name):
             unsup = uns[j] == "1"
             if internal == "1":
                 want = True
-            elif librep != "1" or text == "-":
+            elif librep != "1":
                 want = False
             elif not unsup:
                 want = False
                 if g["cfg"]["safety"] and crit == "1":
-                    want = None        # safety mode forwards critical errors although suppressed (documented separately; not judged here)
+                    want = None        # safety mode forwards critical errors although suppressed (theorem clause; judged by the correspondence only)
+            elif text == "-":
+                want = False
             else:
                 want = g["cfg"]["dup"] or text not in seen_unsup_text
             # the index reported by both sides is the first finding equal to this one: judge only first occurrences
